@@ -64,10 +64,26 @@ func podSpec(wl *Workload) corev1.PodSpec {
 	return ps
 }
 
+func ownerAPI(wl *Workload, i int) string {
+	if wl.MixedOwnerAPI && i%2 == 1 {
+		return "apps/v1beta2"
+	}
+	return "apps/v1"
+}
+
 // ownedPodName: bare pods of a controller carry a suffix that is unique in the cluster (as the real, random ones are):
 // same-named workloads of two namespaces do not get same-named pods this way, while synthesised replicas (name-1) do.
 func ownedPodName(wl *Workload, i int) string {
 	return fmt.Sprintf("%s-%sx%dz", wl.Name, wl.Ns, i)
+}
+
+// omitNs: the rendered namespace of a document - empty when the world says this document is written without
+// metadata.namespace (only for objects of "default", where the omission means the same).
+func (w *World) omitNs(kind, name, ns string) string {
+	if ns == "default" && w.OmitNs[kind+"/"+name] {
+		return ""
+	}
+	return ns
 }
 
 // Doc is one rendered manifest document.
@@ -144,7 +160,7 @@ func workloadDocs(w *World, wl *Workload) []Doc {
 		okind := ownedKind(wl.Kind)
 		for i := 0; i < n; i++ {
 			pm := metav1.ObjectMeta{Name: ownedPodName(wl, i), Namespace: ns, Labels: wl.Labels,
-				OwnerReferences: []metav1.OwnerReference{{APIVersion: "apps/v1", Kind: okind, Name: wl.Name, UID: "u", Controller: &ctl}}}
+				OwnerReferences: []metav1.OwnerReference{{APIVersion: ownerAPI(wl, i), Kind: okind, Name: wl.Name, UID: "u", Controller: &ctl}}}
 			if strings.HasPrefix(wl.Kind, "Owned2:") {
 				// a non-controller reference (e.g. a scheduler's pod group) listed before the controller one
 				pm.OwnerReferences = append([]metav1.OwnerReference{{APIVersion: "scheduling.x-k8s.io/v1alpha1", Kind: "PodGroup", Name: "pg-" + wl.Name, UID: "u0"}}, pm.OwnerReferences...)
@@ -330,7 +346,7 @@ func (w *World) Docs() []Doc {
 func (w *World) ingressDocs() []Doc {
 	var docs []Doc
 	for _, sv := range w.Services {
-		k := &corev1.Service{TypeMeta: metav1.TypeMeta{APIVersion: "v1", Kind: "Service"}, ObjectMeta: metav1.ObjectMeta{Name: sv.Name, Namespace: sv.Ns}}
+		k := &corev1.Service{TypeMeta: metav1.TypeMeta{APIVersion: "v1", Kind: "Service"}, ObjectMeta: metav1.ObjectMeta{Name: sv.Name, Namespace: w.omitNs("svc", sv.Name, sv.Ns)}}
 		k.Spec.Selector = sv.Selector
 		for _, p := range sv.Ports {
 			sp := corev1.ServicePort{Name: p.Name, Port: int32(p.Port), Protocol: corev1.Protocol(p.Proto)}
@@ -347,7 +363,7 @@ func (w *World) ingressDocs() []Doc {
 		return netv1.IngressBackend{Service: &netv1.IngressServiceBackend{Name: b.Svc, Port: netv1.ServiceBackendPort{Name: b.PortName, Number: int32(b.PortNum)}}}
 	}
 	for _, g := range w.Ingresses {
-		k := &netv1.Ingress{TypeMeta: metav1.TypeMeta{APIVersion: "networking.k8s.io/v1", Kind: "Ingress"}, ObjectMeta: metav1.ObjectMeta{Name: g.Name, Namespace: g.Ns}}
+		k := &netv1.Ingress{TypeMeta: metav1.TypeMeta{APIVersion: "networking.k8s.io/v1", Kind: "Ingress"}, ObjectMeta: metav1.ObjectMeta{Name: g.Name, Namespace: w.omitNs("ing", g.Name, g.Ns)}}
 		if g.Default != nil {
 			b := kb(*g.Default)
 			k.Spec.DefaultBackend = &b
@@ -368,7 +384,7 @@ func (w *World) ingressDocs() []Doc {
 		docs = append(docs, Doc{Kind: "Ingress", Key: "Ingress/" + g.Ns + "/" + g.Name, Obj: k})
 	}
 	for _, r := range w.Routes {
-		k := &ocroutev1.Route{TypeMeta: metav1.TypeMeta{APIVersion: "route.openshift.io/v1", Kind: "Route"}, ObjectMeta: metav1.ObjectMeta{Name: r.Name, Namespace: r.Ns}}
+		k := &ocroutev1.Route{TypeMeta: metav1.TypeMeta{APIVersion: "route.openshift.io/v1", Kind: "Route"}, ObjectMeta: metav1.ObjectMeta{Name: r.Name, Namespace: w.omitNs("rt", r.Name, r.Ns)}}
 		k0, _ := r.refKind(0)
 		k.Spec.To = ocroutev1.RouteTargetReference{Kind: k0, Name: r.To}
 		for i, a := range r.Alt {
